@@ -708,3 +708,67 @@ func genC08(r *rand.Rand, n int, emit func(string)) {
 		emit(proto.Line("lifecycle", M{"cfg": cfg, "ns": "did:sidetree", "code": code, "steps": steps, "sigs": s.sigs, "oracle": s.oracle, "uri": UriTable(deepCopy(steps))}))
 	}
 }
+
+func init() { register("C17vdr", genC17vdr) }
+
+// genC17vdr: did-go documents for VDR.Create / VDR.Read. Keys are referenced from one to four
+// relationships, each reference spelling the key id as "id", "#id" or "did:…#id".
+func genC17vdr(r *rand.Rand, n int, emit func(string)) {
+	for i := 0; i < n; i++ {
+		doc := M{}
+		rels := []string{"authentication", "assertionMethod", "capabilityDelegation", "capabilityInvocation", "keyAgreement"}
+		for _, rel := range rels {
+			doc[rel] = []interface{}{}
+		}
+		nk := 1 + r.Intn(3)
+		for k := 0; k < nk; k++ {
+			id := "k" + ident(r, 2) + string(rune('a'+k))
+			e := M{}
+			usable := rels
+			switch r.Intn(3) {
+			case 0:
+				key := opb.NewKey(r, opb.Ed25519)
+				e["type"] = "Ed25519VerificationKey2018"
+				e["value"] = proto.Hex([]byte(key.Ed.Public().(ed25519.PublicKey)))
+				usable = rels[:4]
+			case 1:
+				key := opb.NewKey(r, pick(r, []opb.KeyType{opb.P256, opb.P384, opb.Ed25519}))
+				e["type"] = "JsonWebKey2020"
+				e["jwk"] = jwkNoEmptyY(key.JWK())
+			default:
+				key := opb.NewKey(r, opb.Secp256k1)
+				e["type"] = "EcdsaSecp256k1VerificationKey2019"
+				e["jwk"] = jwkNoEmptyY(key.JWK())
+			}
+			perm := r.Perm(len(usable))
+			for _, pi := range perm[:1+r.Intn(len(usable))] {
+				ref := M{}
+				for a, b := range e {
+					ref[a] = b
+				}
+				ref["id"] = pick(r, []string{id, id, "#" + id, "did:example:123#" + id})
+				doc[usable[pi]] = append(doc[usable[pi]].([]interface{}), ref)
+			}
+		}
+		var svcs []interface{}
+		for k, ns := 0, r.Intn(3); k < ns; k++ {
+			in, _ := c08Service(r, "svc"+ident(r, 2)+string(rune('a'+k)))
+			// did-go's own schema refuses endpoint arrays of strings when it reads the result back
+			if _, isArr := in["endpoint"].([]interface{}); isArr {
+				in["endpoint"] = []interface{}{M{"uri": "https://a.example/" + ident(r, 3), "accept": []interface{}{"didcomm/v2"}}}
+			}
+			svcs = append(svcs, in)
+		}
+		doc["services"] = svcs
+		var aka []string
+		for k, na := 0, r.Intn(3); k < na; k++ {
+			aka = append(aka, "https://aka.example/"+ident(r, 3)+string(rune('a'+k)))
+		}
+		doc["aka"] = strsI(aka)
+		body := M{"method": pick(r, []string{"sidetree", "foo", "ion"}), "doc": doc,
+			"updateKey": pubCoords(opb.NewKey(r, pick(r, []opb.KeyType{opb.Ed25519, opb.P256, opb.Secp256k1}))),
+			"recoveryKey": pubCoords(opb.NewKey(r, pick(r, []opb.KeyType{opb.Ed25519, opb.P256})))}
+		body["uri"] = UriTable(deepCopy(doc))
+		emit(proto.Line("vdr", body))
+	}
+}
